@@ -66,6 +66,10 @@ def gen_plan(seed, tier):
         plan['constraint'] = None
         if isinstance(plan['nbins'], list) and r3.random() < 0.7: plan['nbins'][i] = r3.choice([2, 2, 3])
         plan['degenerate_axis'] = i
+        if plan['limits'][0] is None:      # (a simplex cannot converge along a fixed parameter: such runs end on their limits)
+            plan['limits'] = [r3.choice([12, 20, 30, 45]), None]
+            plan['maps'] = ensembles.map_specs(sub_rng(seed, 'plan.c09.degenerate.maps'), tier, 2)
+            plan['modes'] = ['solve', 'solve_step', 'steps', 'while'] if tier != 'quick' else ['solve', 'while']
     r2 = sub_rng(seed, 'plan.c09.inst')
     if plan['nested_instance'] and r2.random() < 0.5:
         # the configured instance has no objective of its own: each ensemble it is handed to (one after the other, run to
@@ -285,6 +289,8 @@ def _run(plan, run, violate, stats):
         stats['variants'] += 1
         check_variant(plan, run, s, peers, e0, mspec, mode, violate, stats)
         try:
+            if mode in ('while', 'steps') and G is None and not s.Terminated():
+                run.probe('c09.manual_loop_cut_by_harness'); raise ValueError('loop cut by the harness cap: not comparable')
             member_work[(repr(sorted(mspec.items())), mode)] = (tuple(int(m_.generations) for m_ in s._allSolvers),
                                                                  tuple(int(v_) for v_ in s._all_evals))
         except Exception:
